@@ -16,6 +16,7 @@ TEXT = {
  "C08": ("model-based stepper + free-running programs + misuse sequences over the whole int range for ChanCaster", "stateful + concurrent-program + input property-based testing (rapid + testing/synctest)"),
  "C09": ("model-based stepper over Exclusive with gated work functions: per-key mutual exclusion checked at every work-function start, key independence via enabledness at quiescence", "stateful property-based testing with gated callbacks (rapid + testing/synctest)"),
  "C10": ("model-based stepper over Exclusive: answering execution = first begun after the call (logical clock), outcome equality/exactly-once, resolve-not-called, no lost call, no state left", "stateful property-based testing with gated callbacks (rapid + testing/synctest)"),
+ "C11": ("generated concurrent programs for every concurrency-safe type executed under the Go race detector; every report with a library frame is a violation", "property-based testing over generated concurrent programs with the Go race detector as oracle"),
  "C12": ("model-based steppers for Buffer/consumers, Channel and WaitCond with generated shutdown orders; enabledness of Close, errors after close, goroutine-leak oracle at bubble end", "stateful property-based testing with goroutine-leak oracle (rapid + testing/synctest)"),
  "C13": ("model-based stateful PBT of Channel against the (taken, committed, replay) model in virtual poll time", "stateful property-based testing vs reference model (rapid + testing/synctest)"),
  "C19": ("PBT over generated signatures/arguments/result targets against an assignability oracle and direct-call comparison", "property-based testing (rapid), differential vs direct call"),
